@@ -23,7 +23,7 @@ CHECKS["C05"] = dict(level="exploration", engine="sweep",
 
 CHECKS["C02"] = dict(level="fault_enumeration", engine="sweep",
    technique="fault enumeration on the real Prio3 code: exhaustive invalid inputs x randomness over GF(17) with exact acceptance counting, invalid-encoding menu through an honest-proof Raw client, byte-level tamper enumeration of every message, verifier-share list manipulations",
-   text="(a) every invalid input x every randomness over GF(17) with exact acceptance counts vs the soundness bound and every adversarial proof for Count/GF(17); (b) a menu of invalid encodings (non-bits at boundary positions, bit flips, affine-preserving near misses; all of F^n for tiny instances) is sharded with honestly computed proofs by Prio3<Raw<T>> for honest Prio3<T> aggregators over 2..5 aggregators, 1..3 proofs and a key/nonce tape alphabet, and the outcome is compared with the decision the specification prescribes for the randomness derived by an independent transcription of the draft; (c) every byte of the public share, each input share, each verifier share and the verifier message x an alteration alphabet (all 8 bit flips, +-1, 0, 0xff; every byte value over 1-byte fields), pairs of alterations, and dropped/duplicated/reordered/substituted/zeroed verifier shares: some aggregator must fail, and whenever all finish the outputs must sum to the truncation of a valid encoding.",
+   text="(a) every invalid input x every randomness over GF(17) with exact acceptance counts vs the soundness bound and every adversarial proof for Count/GF(17); (b) a menu of invalid encodings (non-bits at boundary positions, bit flips, affine-preserving near misses; all of F^n for tiny instances) is sharded with honestly computed proofs by Prio3<Raw<T>> for honest Prio3<T> aggregators over 2..5 aggregators, 1..3 proofs and a key/nonce tape alphabet, and the outcome is compared with the decision the specification prescribes for the randomness derived by an independent transcription of the draft; (c) every byte of the public share, each input share, each verifier share and the verifier message x an alteration alphabet (all 8 bit flips, +-1, 0, 0xff; every byte value over 1-byte fields), pairs of alterations, and dropped/duplicated/reordered/substituted/zeroed verifier shares: some aggregator must fail, and whenever all finish the outputs must sum to the truncation of a valid encoding. (d) every named constructor (serial and multithreaded, pairwise distinct parameters) x out-of-range measurements: whatever is sharded, verified by all aggregators and aggregated must be a valid measurement for the requested parameters.",
    note="Deployed fields: a passing invalid encoding / single-byte alteration has probability ~2^-57 per case and is treated as a violation. The (b) predictor uses the library FLP on the whole input (decided independently by C05). Adversarial proofs are exhaustive for Count/GF(17) only.",
    design="§2 C02")
 
@@ -73,7 +73,7 @@ CHECKS["C12"] = dict(level="model_checking", engine="stateright",
 
 CHECKS["C14"] = dict(level="model_checking", engine="choices",
    technique="exhaustive enumeration of work-stealing outcomes (all steal patterns) of rayon's bridge_producer_consumer through an oracle in a vendored rayon copy, on the real fold/map/reduce pipeline; byte comparison with the serial gadget/type",
-   text="rayon cannot be rebuilt on loom/shuttle, so the only schedule-dependent decisions of the par_chunks().fold().map().reduce() pipeline -- the split budget (thread count) and whether each right child was stolen -- are answered by the explorer in a vendored copy of rayon 1.12.0 (3 hunks). For logical pool sizes {1,2,3,4,8,16}, chunk counts 1..12 (thorough 16) and gadget calls {1,2,3,7}, EVERY steal pattern is executed on a real 1-thread pool with the real consumers and join_context; the bare ParallelSumMultithreaded gadget (junk-prefilled output; inner gadget Mul and PolyEval of degree 1..3, whose arity differs from its degree) must equal ParallelSum, the library's multithreaded constructors must denote the same VDAF as their serial twins, and Prio3{SumVec,Histogram,MultihotCountVec}Multithreaded must produce byte-identical public share, input shares, verifier shares, verifier message and output shares as the serial types under the same tape. A free-running pass on real 2..16-thread pools (sampling, labelled) and a syntactic scan for shared mutable state guard the assumption.",
+   text="rayon cannot be rebuilt on loom/shuttle, so the only schedule-dependent decisions of the par_chunks().fold().map().reduce() pipeline -- the split budget (thread count) and whether each right child was stolen -- are answered by the explorer in a vendored copy of rayon 1.12.0 (3 hunks). For logical pool sizes {1,2,3,4,8,16}, chunk counts 1..12 (thorough 16) and gadget calls {1,2,3,7}, EVERY steal pattern is executed on a real 1-thread pool with the real consumers and join_context; the bare ParallelSumMultithreaded gadget (junk-prefilled output; inner gadget Mul and PolyEval of degree 1..3, whose arity differs from its degree) must equal ParallelSum, the library's multithreaded constructors must denote the same VDAF as their serial twins, and Prio3{SumVec,Histogram,MultihotCountVec}Multithreaded must produce byte-identical public share, input shares, verifier shares, verifier message and output shares as the serial types under the same tape. A free-running pass (4 job shapes x real pools of 2,3,4,8,16 threads x 150/3000 runs; sampling, labelled; it reports a shared-buffer atomicity violation of our own making in every run) and a syntactic scan for shared mutable state guard the assumption.",
    note="Assumes the outcome depends on the schedule only through which jobs were stolen (true while closures share no mutable state; scan reported in evidence). Memory-ordering effects inside rayon itself are out of scope.",
    design="§2 C14")
 
@@ -85,7 +85,7 @@ CHECKS["C06"] = dict(level="model_checking", engine="bfs",
 
 CHECKS["C04"] = dict(level="fault_enumeration", engine="sweep",
    technique="fault enumeration on the real Poplar1 verification: malicious-client strategies assembled from public parts (real IDPF gen with arbitrary programmed values + transcribed correlated randomness) and byte-level tamper enumeration of every message of both rounds",
-   text="(a) Reports are built from public parts only: the real Idpf key generation programmed with data beta in {0,1,2,-1,3} and authenticator in {k*beta, k, 0, k+1} at one level, correlated randomness (A=-2a+k, B=a^2+b-ak+c) derived by a harness transcription honestly for the cheating value or perturbed at one level, input shares assembled through the wire format; every input x every aggregation parameter (bits<=3; on-path/sibling sets for 8 bits) x key tapes is verified by both aggregators. (b) For honest reports every byte of the public share (every value of the packed control bits), both input shares, both rounds of verifier shares and both verifier messages is altered over an alphabet. Oracle: whenever both aggregators finish, the output shares sum to the zero vector or a one-hot vector with value one; strategies the sketch cannot admit are rejected whenever the on-path candidate is queried; the harness's own honest and all-zero crafted reports must verify (conformance of the transcription).",
+   text="(a) Reports are built from public parts only: the real Idpf key generation programmed with data beta in {0,1,2,-1,3} and authenticator in {k*beta, k, 0, k+1} at one level, correlated randomness (A=-2a+k, B=a^2+b-ak+c) derived by a harness transcription honestly for the cheating value or perturbed at one level, input shares assembled through the wire format; every input x every aggregation parameter (bits<=3; on-path/sibling sets for 8 bits) x key tapes is verified by both aggregators. (b) For honest reports every byte of the public share (every value of the packed control bits), both input shares, both rounds of verifier shares and both verifier messages is altered over an alphabet. Oracle: whenever both aggregators finish, the output shares sum to the zero vector or a one-hot vector with value one; strategies the sketch cannot admit are rejected whenever the on-path candidate is queried; the harness's own honest and all-zero crafted reports must verify (conformance of the transcription). (c) Every cheating report is also combined with structural alterations of the sketch messages (emptied, shortened, zero-filled; one or both aggregators) and (e) with ill-shaped verifier shares handed to the combiner as objects (0..4 zeros, shortened, extended) in either round.",
    note="Verification keys are a fixed alphabet (a cheat passing by chance: <= 2/2^64 per key at inner levels). Two simultaneous non-zero candidates are reachable only through tampering (the IDPF is a point function), which layer (b) enumerates at byte level.",
    design="§2 C04")
 
@@ -101,7 +101,7 @@ CHECKS["C08"] = dict(level="fault_enumeration", engine="sweep",
    design="§2 C08")
 CHECKS["C13"] = dict(level="model_checking", engine="bfs",
    technique="explicit-state BFS over the aggregation state space (multiset of partial aggregates tagged with the subset they cover) with the real aggregate_init/accumulate/merge/aggregate/unshard as transition function, vs subset sums on residues",
-   text="For 42 instances (Prio3 Count/SumVec/Histogram over deployed and small fields, Prio2, Poplar1 inner and leaf incl. colliding level bytes and the longest inputs: 65536 bits at levels 65535/65534) and share tuples from extreme values (all residues over GF(17)/GF(97)), every order and tree shape of aggregate_init / From / accumulate / merge is explored; in every state each aggregate must equal the reference sum of its subset, merging the empty aggregate changes nothing, every ill-shaped operand (every wrong length, Inner/Leaf mix, both directions) must be refused leaving the accumulator byte-identical, one-shot aggregate over every permutation and unshard over terminal aggregates equal the single pass.",
+   text="For 42 instances (Prio3 Count/SumVec/Histogram over deployed and small fields, Prio2, Poplar1 inner and leaf incl. colliding level bytes and the longest inputs: 65536 bits at levels 65535/65534) and share tuples from extreme values (all residues over GF(17)/GF(97)), every order and tree shape of aggregate_init / From / accumulate / merge is explored; in every state each aggregate must equal the reference sum of its subset, merging the empty aggregate changes nothing, every ill-shaped operand (every wrong length, Inner/Leaf mix, both directions) must be refused leaving the accumulator byte-identical, one-shot aggregate over every permutation and unshard over terminal aggregates equal the single pass. Large batches (8..1024 shares, 4099 thorough) through the batch entry point equal the reference sum, the accumulate chain and merged sub-batches of 7/32/100.",
    note="k <= 5 shares with unrestricted tree shapes (6-7 with at most two live aggregates); deployed fields on extreme residues only; state deduplication assumes equal kind+encoding imply equal futures.",
    design="§2 C13")
 CHECKS["C15"] = dict(level="model_checking", engine="choices",
